@@ -130,7 +130,7 @@ class ArgsFormat(object):
         arguments = self.get_arguments(include_base)
 
         if isinstance(name, int):
-            return name < len(arguments)
+            return 0 <= name < len(arguments)
 
         return name in arguments
 
